@@ -87,7 +87,14 @@ def run_profiles(rep, prop, mod, base_rep):
             rep.missing("profiles/%s" % label, "the tree builds under this profile", str(e)[-800:])
             continue
         r2 = Report(prop)
-        mod.run(r2, pdbmod.Pdb(d), "quick")
+        db2 = pdbmod.Pdb(d)
+        mod.run(r2, db2, "quick")
+        # the same pipeline as the quick tier: dependency closure and hidden-state rules on this profile's program database
+        if not os.environ.get("VERIF_NO_DEPS"):
+            from . import deps
+            deps.run(prop, r2, db2)
+        from . import state
+        state.run(prop, r2, db2)
         same = verdicts(r2) == base
         diff = sorted(set(verdicts(r2)) ^ set(base))[:6]
         rep.add("profiles/%s" % label, "the rule verdicts do not depend on the cargo profile (same instances, same verdicts)", same, where="cargo %s" % label,
